@@ -68,13 +68,15 @@ func convertToUuidBytes(source interface{}) (val []byte, err error) {
 			val = s.Bytes()
 		}
 	case []byte:
-		if len(s) != primitive.LengthOfUuid {
+		if s == nil {
+			// nil slice: NULL
+		} else if len(s) != primitive.LengthOfUuid {
 			err = errWrongFixedLength(primitive.LengthOfUuid, len(s))
 		} else {
 			val = s
 		}
 	case *[]byte:
-		if s != nil {
+		if s != nil && *s != nil {
 			if len(*s) != primitive.LengthOfUuid {
 				err = errWrongFixedLength(primitive.LengthOfUuid, len(*s))
 			} else {
